@@ -2,6 +2,7 @@
 
 Used by C05, C07, C08, C09 (DESIGN.md section 4)."""
 from .common import *
+from .common import _closure_arg
 
 STATE_SETTERS = {
     "rt::thread::Thread::new", "rt::thread::Thread::set_runnable", "rt::thread::Thread::set_blocked",
@@ -128,6 +129,10 @@ def operation_guards(body, bb, recv_canon):
             continue
         same = canon(strip(f[1])) == recv_canon
         kind = "other"
+        if e[0] == "call" and e[1].endswith("PartialEq::ne") and pol is not None:
+            # `if a != b { continue }` leaves `a == b` known on the fall-through path
+            e = ("call", e[1][:-2] + "eq") + tuple(e[2:])
+            pol = not pol
         if e[0] == "call" and e[1].endswith("PartialEq::eq"):
             kind = "eq"
         elif e[0] == "discr":
@@ -482,30 +487,54 @@ def D1(ctx):
                                            "branch_thread": "rt::path::Path::branch_thread"}),
                        stop=lambda i: prog.insts[i].key != k).solve([inst])
     IN, OUT = ea.block_out(inst)
+    def scen(active, all_terminated):
+        """is_active() = active; every thread's is_terminated() = all_terminated (the thread set is never empty: the first
+        element request of a loop over it yields an element).  `all`/`any` over closures are evaluated through the closure."""
+        table = {"rt::thread::Set::is_active": active, T + "::is_terminated": all_terminated}
+        base = assume_scenario(prog, table)
+
+        def a(body_, b, t, e):
+            r = base(body_, b, t, e)
+            if r is not None:
+                return r
+            pol = True
+            while e[0] == "unop" and e[1] == "Not":
+                e = e[2]
+                pol = not pol
+            if e[0] == "call" and e[1] in ("std::iter::Iterator::all", "std::iter::Iterator::any"):
+                ck = _closure_arg(e)
+                if ck and ck in prog.fns:
+                    rv = possible_returns(prog, ck, table)
+                    if rv == {True} or rv == {False}:
+                        # all(p) with p constantly v on a non-empty collection = v; likewise any(p)
+                        return switch_targets_for(t, (rv == {True}) == pol)
+            return None
+
+        def first_next(body_, b, t, e, first):
+            if first:
+                tgt = [tb for (val, tb) in t["targets"] if val == 1]
+                return set(tgt) if tgt else None
+            return None
+        a.first_next = first_next
+        return a
     for (b, msg) in ps:
-        g_active = unreachable_if(body, b, assume_calls({"rt::thread::Set::is_active": True}))
-        r_inactive = not unreachable_if(body, b, assume_calls({"rt::thread::Set::is_active": False}))
-        g_term = unreachable_if(body, b, assume_calls({"std::iter::Iterator::all": True}))
-        r_term = not unreachable_if(body, b, assume_calls({"std::iter::Iterator::all": False, "rt::thread::Set::is_active": False}))
+        g_active = unreachable_if(body, b, scen(True, False))
+        r_inactive = not unreachable_if(body, b, scen(False, False))
+        g_term = unreachable_if(body, b, scen(False, True))
+        r_term = r_inactive
         after = IN.get(b) is not TOP and "set_active" in (IN.get(b) or ())
         # inevitable: with no active thread and some thread not terminated, schedule() cannot return normally
-        dead, _ = PEval(body, assume_calls({"std::iter::Iterator::all": False, "rt::thread::Set::is_active": False})).run()
+        dead, _ = PEval(body, scen(False, False)).run()
         r_term = r_term and not any(body.term(x)["k"] == "return" for x in dead)
         if g_active and r_inactive and g_term and r_term and after:
             ctx.ok("D1", k, "deadlock panic iff no thread is active and not all threads terminated, after set_active(next)",
                    [site_str(prog, k, b)])
         else:
             ctx.bad("D1", k, "deadlock panic condition changed: guarded by is_active()=%s, reachable when inactive=%s, suppressed when all "
-                    "terminated=%s, reachable otherwise=%s, after set_active=%s" % (g_active, r_inactive, g_term, r_term, after),
+                    "terminated=%s, inevitable otherwise=%s, after set_active=%s" % (g_active, r_inactive, g_term, r_term, after),
                     site_str(prog, k, b), detail="condition")
-    # the `all` closure tests termination
-    cl = [c for c in prog.closures_of(k)]
-    ok = False
-    for c in cl:
-        ci = prog.ident(c)
-        for (b, t, cal) in prog.sites(ci):
-            if prog.callee_key(cal) == T + "::is_terminated":
-                ok = True
+    # the termination test uses Thread::is_terminated (in the function or one of its closures)
+    ok = any(enclosing_fn(s_["fn"]) == k for s_ in call_sites(prog, T + "::is_terminated"))
     if ok:
         ctx.ok("D1", k + ":terminal", "termination test uses Thread::is_terminated", [fn.loc()])
     else:
@@ -514,29 +543,177 @@ def D1(ctx):
     acc = {"rt::thread::Set::active", "rt::thread::Set::active_mut", "rt::thread::Set::active_id"}
 
 
+# ---- D2: the blocking condition as a function of the object's own state -------------------------------------------
+# (operation, branching call, index of the blocking-condition argument, state ADT, field, {scenario: must block?})
+LOCK_SCEN = ["None", "Some:Read", "Some:Write"]
 D2_ROWS = [
-    # (function, branching call, arg index of the blocking condition, calls that must feed it, constants allowed)
-    ("rt::mutex::Mutex::acquire_lock", "rt::object::Ref::<T>::branch_acquire", 1, {"rt::mutex::Mutex::is_locked"}),
-    ("rt::rwlock::RwLock::acquire_read_lock", "rt::object::Ref::<T>::branch_disable", 2, {"rt::rwlock::RwLock::is_write_locked"}),
-    ("rt::rwlock::RwLock::acquire_write_lock", "rt::object::Ref::<T>::branch_disable", 2,
-     {"rt::rwlock::RwLock::is_write_locked", "rt::rwlock::RwLock::is_read_locked"}),
-    ("rt::mpsc::Channel::recv", "rt::object::Ref::<T>::branch_disable", 2, {"rt::mpsc::Channel::is_empty"}),
+    ("rt::mutex::Mutex::acquire_lock", "rt::object::Ref::<T>::branch_acquire", 1, "rt::mutex::State", "lock",
+     {"None": False, "Some": True}),
+    ("rt::rwlock::RwLock::acquire_read_lock", "rt::object::Ref::<T>::branch_disable", 2, "rt::rwlock::State", "lock",
+     {"None": False, "Some:Read": False, "Some:Write": True}),
+    ("rt::rwlock::RwLock::acquire_write_lock", "rt::object::Ref::<T>::branch_disable", 2, "rt::rwlock::State", "lock",
+     {"None": False, "Some:Read": True, "Some:Write": True}),
+    ("rt::mpsc::Channel::recv", "rt::object::Ref::<T>::branch_disable", 2, "rt::mpsc::State", "msg_cnt",
+     {"zero": True, "nonzero": False}),
 ]
 
-STATE_PREDICATES = {
-    # predicate fn -> (State adt, field, variants that must all be tested for `true`)
-    "rt::mutex::Mutex::is_locked": ("rt::mutex::State", "lock", None),
-    "rt::rwlock::RwLock::is_write_locked": ("rt::rwlock::State", "lock", ["Some", "Write"]),
-    "rt::rwlock::RwLock::is_read_locked": ("rt::rwlock::State", "lock", ["Some", "Read"]),
-    "rt::mpsc::Channel::is_empty": ("rt::mpsc::State", "msg_cnt", None),
-}
+
+_BINDS = {}     # local fn key -> argument expressions of the call being evaluated (constants passed to a merged predicate)
+
+
+def _resolve_const(prog, fn_key, e):
+    d = strip(deep(prog, fn_key, e))
+    for _ in range(3):
+        if d[0] == "param":
+            # which function declares this parameter: fn_key itself or (for a captured variable) an enclosing function
+            k = fn_key
+            while k in prog.fns and prog.fns[k].kind == "Closure":
+                k = prog.fns[k].j.get("parent_fn")
+            args = _BINDS.get(k)
+            if args and 1 <= d[1] <= len(args):
+                d = strip(args[d[1] - 1])
+                continue
+        break
+    return d
+
+
+def _scenario_assume(prog, fn_key, adt, field, scen, depth):
+    """PEval assumption for "adt.field is in state `scen`" that also follows calls of local bool predicates (incl. closures
+    run through rt::execution) and resolves captured constants."""
+    outer, _, inner = scen.partition(":")
+
+    def pick(t, want_val):
+        tgt = None
+        for (val, tb) in t["targets"]:
+            if val == want_val:
+                tgt = tb
+        return {tgt if tgt is not None else t["otherwise"]}
+
+    def a(body, b, t, e):
+        pol = True
+        while e[0] == "unop" and e[1] == "Not":
+            e = e[2]
+            pol = not pol
+        if e[0] == "discr":
+            subj = strip(e[1])
+            if is_field(subj, adt, field) and outer in ("None", "Some"):
+                return pick(t, 1 if outer == "Some" else 0)
+            if subj[0] == "field" and subj[2] == "0" and strip(subj[1])[0] == "as" and is_field(strip(strip(subj[1])[1]), adt, field) and inner:
+                names = dict((n, v) for (v, n) in (e[3] or []))
+                if not names and e[2] in prog.adts:
+                    names = dict((v["name"], v.get("discr", i)) for i, v in enumerate(prog.adts[e[2]]["variants"]))
+                if inner in names:
+                    return pick(t, names[inner])
+            # a captured / inlined constant (e.g. `mode` of a merged predicate called with Action::Write)
+            d = _resolve_const(prog, body.fn.key, subj)
+            names = dict((n, v) for (v, n) in (e[3] or []))
+            if not names and e[2] in prog.adts:
+                names = dict((v["name"], v.get("discr", i)) for i, v in enumerate(prog.adts[e[2]]["variants"]))
+            if d[0] == "agg" and d[2] in names:
+                return pick(t, names[d[2]])
+            if d[0] == "const" and d[1].get("variant") in names:
+                return pick(t, names[d[1]["variant"]])
+            return None
+        if e[0] == "call":
+            if e[2] and is_field(e[2][0], adt, field) and outer in ("None", "Some"):
+                if e[1].endswith("Option::<T>::is_some"):
+                    return switch_targets_for(t, (outer == "Some") == pol)
+                if e[1].endswith("Option::<T>::is_none"):
+                    return switch_targets_for(t, (outer == "None") == pol)
+            r = _pred_values(prog, body.fn.key, e, adt, field, scen, depth + 1)
+            if r == {True}:
+                return switch_targets_for(t, pol)
+            if r == {False}:
+                return switch_targets_for(t, not pol)
+            return None
+        if e[0] == "binop" and e[1] in ("Eq", "Ne") and outer in ("zero", "nonzero") and is_field(e[2], adt, field) and \
+                e[3][0] == "const" and e[3][1].get("int") == 0:
+            truth = (outer == "zero") if e[1] == "Eq" else (outer == "nonzero")
+            return switch_targets_for(t, truth == pol)
+        return None
+    return a
+
+
+def _expr_values(prog, fn_key, e, adt, field, scen, depth):
+    """Possible truth values of a bool expression of fn_key in the scenario ({True}, {False} or {None, ..})."""
+    pol = True
+    while e[0] == "unop" and e[1] == "Not":
+        e = e[2]
+        pol = not pol
+    outer = scen.partition(":")[0]
+    out = {None}
+    if e[0] == "const" and "int" in e[1]:
+        out = {bool(e[1]["int"])}
+    elif e[0] == "call":
+        if e[2] and is_field(e[2][0], adt, field) and e[1].endswith("Option::<T>::is_some") and outer in ("None", "Some"):
+            out = {outer == "Some"}
+        elif e[2] and is_field(e[2][0], adt, field) and e[1].endswith("Option::<T>::is_none") and outer in ("None", "Some"):
+            out = {outer == "None"}
+        else:
+            out = _pred_values(prog, fn_key, e, adt, field, scen, depth + 1)
+    elif e[0] == "binop" and e[1] in ("Eq", "Ne") and outer in ("zero", "nonzero") and is_field(e[2], adt, field) and \
+            e[3][0] == "const" and e[3][1].get("int") == 0:
+        out = {(outer == "zero") if e[1] == "Eq" else (outer == "nonzero")}
+    return {(x if pol else (not x)) if x is not None else None for x in out}
+
+
+def _local_values(prog, fn_key, body, l, adt, field, scen, depth, reached):
+    """Possible values of bool local l over its definitions in reached blocks."""
+    out = set()
+    for d in body.defs().get(l, []):
+        if d[1] not in reached or body.blocks[d[1]]["cleanup"]:
+            continue
+        if d[0] == "stmt" and d[3]["k"] == "=":
+            rv = d[3]["rv"]
+            if rv["k"] == "use" and operand_local(rv["op"]) is not None and not operand_place(rv["op"])["p"] and \
+                    len(body.defs().get(operand_local(rv["op"]), [])) > 1:
+                out |= _local_values(prog, fn_key, body, operand_local(rv["op"]), adt, field, scen, depth, reached)
+            else:
+                out |= _expr_values(prog, fn_key, body.expr_of_rvalue(rv), adt, field, scen, depth)
+        elif d[0] == "call":
+            t = d[2]
+            out |= _expr_values(prog, fn_key, ("call", callee_path(t), [body.expr_of_operand(a) for a in t["args"]], d[1]), adt, field, scen, depth)
+        else:
+            out.add(None)
+    return out or {None}
+
+
+def _pred_values(prog, fn_key, call_e, adt, field, scen, depth):
+    """Possible return values of a call of a local bool predicate (a fn, or a closure run through rt::execution)."""
+    if depth > 4:
+        return {None}
+    key = call_e[1]
+    if key in TRANSPARENT:
+        key = _closure_arg(call_e)
+    elif key in prog.fns:
+        _BINDS[key] = [deep(prog, fn_key, a) if isinstance(a, tuple) else a for a in call_e[2]]
+    if not key or key not in prog.fns or prog.fns[key].body.locals[0]["ty"] != "bool":
+        return {None}
+    body = prog.fns[key].body
+    reached, _ = PEval(body, _scenario_assume(prog, key, adt, field, scen, depth)).run()
+    return _local_values(prog, key, body, 0, adt, field, scen, depth, reached)
+
+
+def blocking_condition_values(prog, fk, site_bb, ai, adt, field, scen):
+    """Possible values of the blocking-condition argument at the branching call (fk, site_bb) when adt.field is in `scen`."""
+    body = prog.fns[fk].body
+    reached, _ = PEval(body, _scenario_assume(prog, fk, adt, field, scen, 0)).run()
+    if site_bb not in reached:
+        return set()
+    op = body.term(site_bb)["args"][ai]
+    l = operand_local(op)
+    if l is not None and not operand_place(op)["p"] and len(body.defs().get(l, [])) > 1:
+        return _local_values(prog, fk, body, l, adt, field, scen, 0, reached)
+    return _expr_values(prog, fk, body.expr_of_operand(op), adt, field, scen, 0)
 
 
 def D2(ctx):
-    """The blocking condition handed to the branch is derived from the object's own state."""
+    """The blocking condition handed to the branch is a function of the object's own state: for every state of the lock
+    (resp. queue) the condition evaluates to the value the primitive's semantics requires - whether it is computed by named
+    predicates, a merged predicate with a mode argument, or in place."""
     prog = ctx.prog
     n = 0
-    for (fk, br, ai, want) in D2_ROWS:
+    for (fk, br, ai, adt, field, want) in D2_ROWS:
         fn = need_fn(ctx, "D2", fk)
         if fn is None:
             continue
@@ -547,13 +724,16 @@ def D2(ctx):
             continue
         for (b, t) in sites:
             n += 1
-            calls, consts = feeding_calls(fn.body, t["args"][ai])
-            extra_const = consts - {1}   # `a || b` contributes the literal true
-            if want <= calls and not (calls - want - {"std::ops::Not::not"}) and not extra_const:
-                ctx.ok("D2", fk, "blocks iff %s" % " || ".join(sorted(x.split("::")[-1] for x in want)), [site_str(prog, fk, b)])
+            got = {}
+            for scen, must in want.items():
+                got[scen] = blocking_condition_values(prog, fk, b, ai, adt, field, scen)
+            wrong = {sc: sorted(map(str, v)) for sc, v in got.items() if v != {want[sc]}}
+            if not wrong:
+                ctx.ok("D2", fk, "blocks iff %s.%s in {%s}" % (adt.split("::")[-2], field, ", ".join(s_ for s_, m_ in want.items() if m_)),
+                       [site_str(prog, fk, b)])
             else:
-                ctx.bad("D2", fk, "blocking condition of %s is derived from %s (constants %s), expected exactly %s" %
-                        (fk, sorted(calls), sorted(consts), sorted(want)), site_str(prog, fk, b), detail="condition")
+                ctx.bad("D2", fk, "blocking condition of %s is not the required function of %s.%s: expected %s, but it evaluates to %s" %
+                        (fk, adt, field, {k_: v_ for k_, v_ in want.items() if k_ in wrong}, wrong), site_str(prog, fk, b), detail="condition")
     # notify: blocks iff !notified
     fk = "rt::notify::Notify::wait"
     fn = need_fn(ctx, "D2", fk)
@@ -573,40 +753,7 @@ def D2(ctx):
                 else:
                     ctx.bad("D2", fk, "Notify::wait blocks under %s with condition %s; expected: unconditionally when `notified` is false" %
                             (cond, canon(arg)), site_str(prog, fk, b), detail="condition")
-    # the predicates read the object's own state field
-    for pk, (adt, field, variants) in STATE_PREDICATES.items():
-        ck = pk + "::{closure#0}"
-        fn = need_fn(ctx, "D2", ck)
-        if fn is None:
-            continue
-        n += 1
-        body = fn.body
-        # return expression / true-conditions mention the field
-        hit = False
-        seen_variants = set()
-        for b, blk in enumerate(body.blocks):
-            for s in blk["stmts"]:
-                if s["k"] == "=" and s["lhs"]["l"] == 0 and not s["lhs"]["p"]:
-                    e = body.expr_of_rvalue(s["rv"])
-                    if mentions_field(e, adt, field):
-                        hit = True
-                    for (ge, pol, val, sb) in guard_atoms(body, b):
-                        if mentions_field(ge, adt, field):
-                            hit = True
-                            if ge[0] == "discr" and is_const_bool(e, True):
-                                v = variant_of_discr_value(prog, ge, val) if not isinstance(val, tuple) else None
-                                if v:
-                                    seen_variants.add(v)
-            t = body.term(b)
-            if t["k"] == "call" and t["dest"]["l"] == 0:
-                if any(mentions_field(body.expr_of_operand(a), adt, field) for a in t["args"]):
-                    hit = True
-        if hit and (variants is None or set(variants) <= seen_variants):
-            ctx.ok("D2", pk, "reads %s.%s%s" % (adt, field, "" if not variants else " == " + "::".join(variants)), [fn.loc()])
-        else:
-            ctx.bad("D2", pk, "%s does not (only) test %s.%s%s (saw %s)" % (pk, adt, field, "" if not variants else " for " + "::".join(variants),
-                                                                           sorted(seen_variants)), fn.loc(), detail="predicate")
-    ctx.floor("D2", n, 9, "4 blocking calls + notify + 4 state predicates")
+    ctx.floor("D2", n, 5, "4 blocking calls + notify")
 
 
 def S9(ctx):
